@@ -47,6 +47,12 @@ def cases(tier, seed):
         for cell in sweep_cells(g.crystal_system, g.cell_choice, tier):
             for mod in (("tools",) if tier == "quick" else ("tools", "laue")):
                 cs.append({"mod": mod, "no": no, "cc": cc, "cell": cell, "tier": tier, "names": [], "seed": seed, "sweep": True})
+    # cells typed with whole numbers, in every container / dtype (alph.kinds): one representative group per Laue class / setting
+    for no, cc in SWEEP_GROUPS:
+        g = sg.sg(sgno=no, cell_choice=cc)
+        for cell in alph.int_cells(g.crystal_system, g.cell_choice):
+            for mod in ("tools", "laue"):
+                cs.append({"mod": mod, "no": no, "cc": cc, "cell": cell, "tier": tier, "names": [], "seed": seed, "cellkinds": True})
     return cs
 
 
@@ -139,6 +145,24 @@ def check_case(case):
     if case.get("sweep"):
         r.transitions = r.evals
         return r
+    if case.get("cellkinds"):
+        t0, t1 = shells[1]
+        smin, smax = orc.bound(t0), orc.bound(t1)
+        ref = orc.allowed(smin, smax)
+        for kind, obj, prec in alph.kinds(cell):
+            for form in ("positional", "keywords"):
+                key = "%s:cell as %s:%s:shell=(%.6f,%.6f]" % (base, kind, form, smin, smax)
+                if form == "positional":
+                    H, err = G.call_lib(mod.genhkl_all, obj, smin, smax, None, no, cc)
+                else:
+                    H, err = G.call_lib(mod.genhkl_all, unit_cell=obj, sintlmin=smin, sintlmax=smax, sgno=no, cell_choice=cc, output_stl=True)
+                if err:
+                    r.violation(key + ":exception", "genhkl_all raised for a cell given as %s" % kind, None, err)
+                    continue
+                rows, integral = G.as_int_rows(H)
+                compare_all(r, key, rows, integral, ref, orc.family, "genhkl_all for a cell given as %s" % kind)
+                r.transitions += 1
+        return r
     # shell bounds 5e-9 (relative) away from a lattice-point value - the closest the property's quantifier allows: the family at
     # u must be IN for sintlmin = u(1-5e-9) and OUT for u(1+5e-9); the family at v OUT for sintlmax = v(1-5e-9) and IN for v(1+5e-9)
     vals = np.unique(np.round(orc.s[~orc.ext], 10))
@@ -172,11 +196,26 @@ def check_case(case):
         outs.append(sorted(rows))
         r.transitions += 1
     r.require(all(o == outs[0] for o in outs), key + ":rng", "result independent of numpy's global random state")
-    # by every dictionary name (small shell)
+    # every way of asking for the group (oracles.group_forms: number / name / spaced name / R names with suffix or with an explicit
+    # cell_choice), as keywords and positionally (small shell)
     if case["names"]:
         t0, t1 = SMALL[tier]
         smin, smax = orc.bound(t0), orc.bound(t1)
         ref = orc.allowed(smin, smax)
+        for lab, kw in O.group_forms(no, cc):
+            for pos in (False, True):
+                key = "%s:form=%s%s:shell=(%.6f,%.6f]" % (base, lab, ":positional" if pos else "", smin, smax)
+                np.random.seed(0)
+                if pos:
+                    H, err = G.call_lib(mod.genhkl_all, cell, smin, smax, kw.get("sgname"), kw.get("sgno"), kw.get("cell_choice", "standard"))
+                else:
+                    H, err = G.call_lib(mod.genhkl_all, cell, smin, smax, **kw)
+                if err:
+                    r.violation(key + ":exception", "genhkl_all(%s) raised" % lab, None, err)
+                    continue
+                rows, integral = G.as_int_rows(H)
+                compare_all(r, key, rows, integral, ref, orc.family, "genhkl_all asked by " + lab)
+                r.transitions += 1
         for nm in case["names"]:
             key = "%s:name=%s:shell=(%.6f,%.6f]" % (base, nm, smin, smax)
             np.random.seed(0)
